@@ -401,12 +401,21 @@ fn op_store(ctx: &mut Ctx, op: &Value, ev: &mut Map<String, Value>) {
                 ev.insert("fresh_args".into(), args);
                 let lang = sb.lang.clone();
                 let (shadow, limit, l, r) = (sb.shadow.clone(), sb.limit, sb.left.clone(), sb.right.clone());
-                match guarded(|| {
-                    let st = fresh_store(&lang, &shadow, limit, &l, &r);
-                    do_search(&st, &q)
-                }) {
+                // on a thread of its own: the crate's thread-local scratch state (distance matrix, Jaccard buffers,
+                // match vectors) is brand new there, so the twin shares nothing with the store under test
+                let q2 = q.clone();
+                let res = std::thread::spawn(move || {
+                    panic::catch_unwind(AssertUnwindSafe(|| {
+                        let st = fresh_store(&lang, &shadow, limit, &l, &r);
+                        hits_json(&do_search(&st, &q2))
+                    }))
+                    .map_err(panic_message)
+                })
+                .join()
+                .unwrap_or_else(|_| Err("fresh-store thread died".to_string()));
+                match res {
                     Ok(hits) => {
-                        ev.insert("fresh_hits".into(), hits_json(&hits));
+                        ev.insert("fresh_hits".into(), hits);
                     }
                     Err(msg) => {
                         ev.insert("fresh_panic".into(), json!(msg));
@@ -574,7 +583,7 @@ fn op_registry(ctx: &mut Ctx, op: &Value, ev: &mut Map<String, Value>) {
         }
     }
     ev.insert("bufs".into(), Value::Array(bufs));
-    if name == "r_search" && wants(op, "qtok") {
+    if name == "r_search" {
         if let Some(lang) = ctx.reg_lang.get(&(id as u64)) {
             let l = ctx.comp.lang(lang);
             if let Ok(t) = guarded(|| tokenize_query(&string_of(&get_cps(op, "q")), l)) {
